@@ -226,6 +226,7 @@ func (cs *clientStream) SendMsg(m any) error {
 		return status.Error(codes.Internal, err.Error())
 	}
 	mc.AwaitObjs("grpc.SendMsg", st.objs(), func() bool { return st.ended() || st.srvDone || len(st.c2s) < W.Window })
+	mcctx.Acquire(st.ctx)
 	if st.ended() || st.srvDone {
 		return io.EOF
 	}
@@ -238,6 +239,7 @@ func (cs *clientStream) SendMsg(m any) error {
 func (cs *clientStream) RecvMsg(m any) error {
 	st := cs.st
 	mc.AwaitObjs("grpc.RecvMsg", st.objs(), func() bool { return st.ended() || st.srvDone || len(st.s2c) > 0 })
+	mcctx.Acquire(st.ctx)
 	switch {
 	case st.conn.closed:
 		return status.Error(codes.Canceled, "grpc: the client connection is closing")
